@@ -610,27 +610,27 @@ def make_cases(ctx, t, plan):
 
 def sub_state(ctx):
     allk = FLAG_KINDS + GENERIC_KINDS + ["comp"]
-    plan = [("q", allk, ctx.n(96, 400)), ("t", allk, ctx.n(72, 400)), ("qq", allk, ctx.n(48, 300)), ("qt", allk, ctx.n(32, 400))]
+    plan = [("q", allk, nn(ctx, 96, 400)), ("t", allk, nn(ctx, 72, 400)), ("qq", allk, nn(ctx, 48, 300)), ("qt", allk, ctx.n(32, 400))]
     cases = make_cases(ctx, "state", plan)
     ctx.sample("state", cases[3]); ctx.run_cases("state", chk_obj, cases)
 
 
 def sub_povm(ctx):
     allk = FLAG_KINDS + GENERIC_KINDS + ["comp"]
-    plan = [("q", allk, ctx.n(64, 400)), ("t", allk, ctx.n(56, 400)), ("qq", allk, ctx.n(32, 300)), ("qt", allk, ctx.n(24, 300))]
+    plan = [("q", allk, nn(ctx, 64, 400)), ("t", allk, nn(ctx, 56, 400)), ("qq", allk, nn(ctx, 32, 300)), ("qt", allk, ctx.n(24, 300))]
     cases = make_cases(ctx, "povm", plan)
     ctx.sample("povm", cases[3]); ctx.run_cases("povm", chk_obj, cases)
 
 
 def sub_gate(ctx):
     allk = FLAG_KINDS + ["nherm", "perm", "unnorm", "herm", "mixed"]
-    plan = [("q", allk, ctx.n(56, 500)), ("t", allk, ctx.n(21, 200)), ("qq", ["named", "perm", "unnorm"], ctx.n(3, 24)), ("qt", ["named", "nherm"], ctx.n(0, 2))]   # one qubit x qutrit gate costs ~1.5 min of exact 72x72 PSD decision
+    plan = [("q", allk, nn(ctx, 56, 500)), ("t", allk, ctx.n(21, 200)), ("qq", ["named", "perm", "unnorm"], ctx.n(3, 24)), ("qt", ["named", "nherm"], ctx.n(0, 2))]   # one qubit x qutrit gate costs ~1.5 min of exact 72x72 PSD decision
     cases = make_cases(ctx, "gate", plan)
     ctx.sample("gate", cases[3]); ctx.run_cases("gate", chk_obj, cases)
 
 
 def sub_mprocess(ctx):
-    plan = [("q", FLAG_KINDS, ctx.n(40, 400)), ("t", FLAG_KINDS, ctx.n(10, 100)), ("qq", ["named"], ctx.n(1, 8)),
+    plan = [("q", FLAG_KINDS, nn(ctx, 40, 400)), ("t", FLAG_KINDS, ctx.n(10, 100)), ("qq", ["named"], ctx.n(1, 8)),
             ("q", GENERIC_KINDS, ctx.n(5, 10)), ("qt", ["named"], ctx.n(0, 1))]
     cases = make_cases(ctx, "mprocess", plan)
     for c in cases:
@@ -790,7 +790,7 @@ def chk_tp_branches(ctx, case):
 def sub_tp_branches(ctx):
     rng = ctx.rng
     cases = []
-    for shape, n in (("q", ctx.n(20, 150)), ("t", ctx.n(10, 80)), ("qq", ctx.n(4, 30))):
+    for shape, n in (("q", nn(ctx, 20, 150)), ("t", nn(ctx, 10, 80)), ("qq", ctx.n(4, 30))):
         for i in range(n):
             cls = ["tp_violate", "interior", "unitary"][i % 3] if i % 2 else "tp_violate"
             cases.append({"type": "gate", "shape": shape, "basis": FLAG_KINDS[i % 2], "cls": cls, "atol": ATOLS[rng.randrange(len(ATOLS))],
@@ -928,10 +928,10 @@ def chk_history(ctx, case):
 def sub_history(ctx):
     rng = ctx.rng
     cases = []
-    plan = [("state", "q", FLAG_KINDS + ["unnorm", "perm"], ctx.n(10, 60)), ("state", "t", FLAG_KINDS, ctx.n(4, 30)), ("state", "qq", ["named"], ctx.n(2, 20)),
-            ("povm", "q", FLAG_KINDS + ["unnorm", "perm"], ctx.n(10, 60)), ("povm", "t", FLAG_KINDS, ctx.n(4, 30)), ("povm", "qq", ["named"], ctx.n(2, 20)),
-            ("gate", "q", FLAG_KINDS + ["perm"], ctx.n(12, 80)), ("gate", "t", FLAG_KINDS, ctx.n(2, 16)),
-            ("mprocess", "q", FLAG_KINDS, ctx.n(10, 60)), ("mprocess", "t", ["named"], ctx.n(1, 8))]
+    plan = [("state", "q", FLAG_KINDS + ["unnorm", "perm"], nn(ctx, 10, 60)), ("state", "t", FLAG_KINDS, nn(ctx, 4, 30)), ("state", "qq", ["named"], ctx.n(2, 20)),
+            ("povm", "q", FLAG_KINDS + ["unnorm", "perm"], nn(ctx, 10, 60)), ("povm", "t", FLAG_KINDS, nn(ctx, 4, 30)), ("povm", "qq", ["named"], ctx.n(2, 20)),
+            ("gate", "q", FLAG_KINDS + ["perm"], nn(ctx, 12, 80)), ("gate", "t", FLAG_KINDS, ctx.n(2, 16)),
+            ("mprocess", "q", FLAG_KINDS, nn(ctx, 10, 60)), ("mprocess", "t", ["named"], ctx.n(1, 8))]
     for t, shape, kinds, n in plan:
         for i in range(n):
             de = float("%.2e" % (10.0 ** rng.uniform(-10, -4))) * rng.choice([1, -1])
@@ -963,19 +963,150 @@ def sub_history(ctx):
     ctx.sample("history", cases[0]); ctx.run_cases("history", chk_history, cases)
 
 
+# ----------------------------------------------------------------------------------------------- exactly-at-threshold (<= , not <)
+# Objects whose defect is an exactly representable 2^-k and whose verdict computation is exact in floating point (diagonal matrices in the
+# computational basis: entries 0/1, sums of a few dyadics; first HS row read directly): the verdict AT atol = defect must be True (the tests
+# are `<=`), just below it False, just above True -- compared with the model evaluated at exactly that tolerance (no ambiguity band).
+def chk_threshold(ctx, case):
+    t = case["type"]; k = int(case["k"]); j = int(case["j"])
+    de, di = 2.0 ** -k, 2.0 ** -j
+    if t == "state":
+        cs = get_cs(case["shape"], "comp"); d = cs.d
+        p = np.zeros(d); p[0] = 0.5; p[1] = 0.5 + de + di; p[d - 1] += -di if d > 2 else 0.0
+        if d == 2:
+            p = np.array([1.0 + de + di, -di])
+        data = coef(cs, np.diag(p))                 # computational basis: a permutation of the matrix entries, exact
+    elif t == "povm":
+        cs = get_cs(case["shape"], "comp"); d = cs.d
+        e0 = np.zeros(d); e0[0] = 0.5; e0[d - 1] = -di
+        e1 = 1.0 - e0; e1[1 % d] += de
+        data = [coef(cs, np.diag(e0)), coef(cs, np.diag(e1))]
+    elif t == "gate":
+        cs = get_cs(case["shape"], "named"); n = cs.d ** 2
+        data = np.eye(n); data[0, 1 + k % (n - 1)] = de
+    else:
+        cs = get_cs(case["shape"], "named"); n = cs.d ** 2
+        h0 = np.eye(n) / 2; h1 = np.eye(n) / 2; h1[0, 1 + k % (n - 1)] = de
+        data = [h0, h1]
+    obj = build(cs, t, data, required=False)
+    ulp = 2.0 ** -30
+    probes = [("eq", de, f) for f in (1.0, 1.0 - ulp, 1.0 + ulp)]
+    if t in ("state", "povm"):
+        probes += [("ineq", di, f) for f in (1.0, 1.0 - ulp, 1.0 + ulp)]
+    for key, base, f in probes:
+        a = base * f
+        mres = model_call(ctx, cs, t, data, GARBAGE, a, a, 0.0, False, 0)
+        got = bool(obj.is_eq_constraint_satisfied(a)) if key == "eq" else bool(obj.is_ineq_constraint_satisfied(a))
+        want_true = f >= 1.0
+        if mres[key] != want_true:
+            ctx.violation("threshold", "harness/props/c01.py", "threshold-generator", "model verdict %s at atol = defect*%r, generator expects %s" % (mres[key], f, want_true), case, no_input=True)
+        if got != mres[key]:
+            ctx.violation("threshold", SITES[t][key], "wrong-at-exact-threshold",
+                          "%s: defect exactly 2^-%d, atol = defect*(1%+.1e): implementation %s, exact model %s (the test must be `<=`)" % (SITES[t][key], k if key == "eq" else j, f - 1.0, got, mres[key]), case)
+    ctx.count("threshold", key=(t, case["shape"], k, j), nontrivial=True, label=t)
+
+
+def sub_threshold(ctx):
+    cases = []
+    for t, shapes in (("state", ["q", "t", "qq"]), ("povm", ["q", "t"]), ("gate", ["q"]), ("mprocess", ["q"])):
+        for shape in shapes:
+            for k, j in ((10, 7), (20, 33), (40, 12))[:ctx.n(2, 3)]:
+                cases.append({"type": t, "shape": shape, "k": k, "j": j})
+    ctx.sample("threshold", cases[0]); ctx.run_cases("threshold", chk_threshold, cases)
+
+
 SUBS = [("witness", sub_witness), ("state", sub_state), ("povm", sub_povm), ("gate", sub_gate), ("mprocess", sub_mprocess),
-        ("origin", sub_origin), ("tp_branches", sub_tp_branches), ("history", sub_history)]
-FNS = {"witness": chk_witness, "state": chk_obj, "povm": chk_obj, "gate": chk_obj, "mprocess": chk_obj, "origin": chk_origin, "tp_branches": chk_tp_branches, "history": chk_history}
+        ("origin", sub_origin), ("tp_branches", sub_tp_branches), ("history", sub_history), ("threshold", sub_threshold)]
+FNS = {"witness": chk_witness, "state": chk_obj, "povm": chk_obj, "gate": chk_obj, "mprocess": chk_obj, "origin": chk_origin, "tp_branches": chk_tp_branches, "history": chk_history, "threshold": chk_threshold}
+
+
+def regen_glue(ctx):
+    """translator tie (same protocol as flow.regen_check, with this property's own translator gen/c01_py2coq.py): regenerate the glue of
+    the 26 verdict methods / functions / constructor guards (tolerance resolution, argument routing, conjunction, flag branch, element
+    loops, raise) from the CURRENT source as terms of Model/C01_Glue.v, compile them, and re-check coq/gen/C01_Equiv.v (template table
+    pinned; regenerated glue evaluates to the hand-written verdict model for all tolerance arguments).  returns (ok, info)"""
+    import os, re, shutil, subprocess, sys
+    import runner
+    V = runner.V
+    scratch = os.path.join(getattr(ctx, "scratch", os.path.join(V, "build", ctx.prop_id)), "gen")
+    os.makedirs(scratch, exist_ok=True)
+    gen_v = os.path.join(scratch, "Gen_c01_glue.v")
+    for stem in (gen_v[:-2], os.path.join(scratch, "C01_Equiv")):
+        for ext in (".v", ".vo", ".vos", ".vok", ".glob"):
+            try:
+                os.remove(stem + ext)
+            except OSError:
+                pass
+    equiv = os.path.join(V, "coq", "gen", "C01_Equiv.v")
+    src = open(equiv).read()
+    src_nc = re.sub(r"\(\*.*?\*\)", " ", src, flags=re.S)
+    thms = re.findall(r"^\s*Theorem\s+([\w']+)", src_nc, flags=re.M)
+    ctx.theorems = list(ctx.theorems) + [t for t in thms if t not in ctx.theorems]
+    ctx.obligations += len(thms)
+    r = subprocess.run([sys.executable, os.path.join(V, "gen", "c01_py2coq.py"), os.environ.get("VERIF_REPO", "/repo"), gen_v],
+                       capture_output=True, text=True, timeout=120)
+    if r.returncode != 0:
+        return False, {"theorem": thms[0], "error": "translator rejected the source (outside its subset): " + (r.stdout + r.stderr)[-600:]}
+    q = ["-Q", os.path.join(V, "coq", "theories"), "QV", "-Q", scratch, "QVGen"]
+    r = subprocess.run(["timeout", "300", "coqc"] + q + [gen_v], capture_output=True, text=True)
+    if r.returncode != 0:
+        return False, {"theorem": thms[0], "error": "regenerated glue does not compile: " + (r.stdout + r.stderr)[-600:]}
+    dst = os.path.join(scratch, "C01_Equiv.v")
+    shutil.copy(equiv, dst)
+    r = subprocess.run(["timeout", "600", "coqc"] + q + [dst], capture_output=True, text=True)
+    out = r.stdout + r.stderr
+    if r.returncode != 0:
+        m_ = re.search(r"line (\d+), characters", out)
+        thm = None
+        if m_:
+            upto = "\n".join(src.splitlines()[:int(m_.group(1))])
+            names = re.findall(r"^\s*(?:Theorem|Lemma)\s+([\w']+)", upto, flags=re.M)
+            thm = names[-1] if names else None
+        return False, {"theorem": thm, "error": out[-800:]}
+    blocks = runner.parse_assumptions(out)
+    bad = [a for closed, axs in blocks for a in axs if a not in runner.ALLOWED_AXIOMS and a.split(".")[-1] not in runner.ALLOWED_AXIOMS]
+    if len(blocks) != len(thms) or bad:
+        return False, {"theorem": thms[0], "error": "assumption gate on regenerated proofs: %d blocks / %d theorems, disallowed %s" % (len(blocks), len(thms), bad)}
+    for t, (closed, axs) in zip(thms, blocks):
+        ctx.axioms[t] = "closed" if closed else sorted(set(axs))
+    ctx.discharged += len(thms)
+    return True, {}
+
+
+def nn(ctx, quick, thorough):
+    """case count; when the translator tie is broken (ctx.boost) the cheap sub-checks run 3x their quick size to look harder for a failing input"""
+    if getattr(ctx, "boost", False) and ctx.quick:
+        return min(thorough, 3 * quick)
+    return ctx.n(quick, thorough)
 
 
 def run(ctx):
+    import runner
     ctx.rule = ("4 object types x shapes {qubit, qutrit, 2 qubits, qubit x qutrit} x bases {normalised Pauli / Gell-Mann, normalised generalised Gell-Mann, "
                 "unnormalised Pauli / Gell-Mann, (un)normalised Hermitian-unit basis (identity not first), permuted, non-orthogonal integer mixture, computational (non-Hermitian)} "
                 "x atol in {1e-13, 1e-12, 1e-10, 1e-8, 1e-6, 1e-5, 1e-4, 1e-3, 1e-2} or log-uniform in [1e-13, 1e-2] x classes {interior, pure / rank-deficient / projective / unitary / Lueders boundary, violated by k*atol along the trace / identity-sum / first-row / "
                 "smallest-eigenvalue direction, k in {0.1, 0.4, 1.7, 3, 10, 100, 1e4, 0.3/atol}}; every object is generated from a per-case seed in floating point, the model consumes the exact dyadic values "
                 "of the same floats. Expected verdicts: extracted Coq model at atol*(1-0.5) and atol*(1+0.5); in-band cases are trivial. non-trivial = both the equality and the inequality verdict are out of band; "
                 "distinct = distinct (type, shape, basis, class, atol, k, seed). Constructor raise/accept, the atol=None path (Settings.set_atol, restored) and monotonicity of the implementation's verdicts over the tolerance grid run on the same stream.")
-    flow.standard_run(ctx, SUBS)
+    # flow.standard_run with this property's own translator tie (flow.regen_check is bound to gen/py2coq.py)
+    ok, info = runner.check_props(ctx)
+    ok2, info2 = regen_glue(ctx)
+    if not ok2:
+        ok, info = False, info2
+        ctx.boost = True
+        ctx.note("regenerated-glue obligations (coq/gen/C01_Equiv.v) not discharged: %s" % str(info2)[:600])
+        ctx.note("translator tie broken: the state / povm / history / tp_branches sub-checks run with 3x their quick size")
+    if not ok:
+        ctx.discharged = min(ctx.discharged, ctx.obligations - 1)
+    for name, fn in SUBS:
+        if ctx.only is None or name in ctx.only:
+            fn(ctx)
+    if not ok and not ctx.violations:
+        ctx.violation("theorems", "Props/%s.v + coq/gen/C01_Equiv.v" % ctx.prop_id, "theorem-broken:%s" % info.get("theorem"),
+                      "theorem %s no longer checks: %s" % (info.get("theorem"), info.get("error", "")[-600:]),
+                      {"theorem": info.get("theorem"), "error": info.get("error")}, no_input=True)
+    elif not ok:
+        ctx.note("theorem obligations not discharged: %s" % info)
 
 
 def replay(ctx, doc):
